@@ -80,13 +80,25 @@ func collectGarbage() {
 	}
 }
 
-// DrainFinalizers collects garbage and runs the recorded cleanups on the
-// calling goroutine (used at run boundaries, outside a run).
+// DrainFinalizers collects garbage at a run boundary. The cleanups of what died
+// are not run here, on the harness's goroutine and outside any run: one of them
+// may need a lock that a library goroutine kept from the last run is holding
+// (it was parked in the middle of its critical section), and nothing could ever
+// release it. They are queued and run as a task of their own in the next run.
 func DrainFinalizers() {
 	collectGarbage()
-	for _, f := range takeDeferred() {
-		f()
-	}
+	queueCleanups(takeDeferred())
+}
+
+var pendingCleanups []func()
+
+func queueCleanups(fs []func()) { pendingCleanups = append(pendingCleanups, fs...) }
+
+// takePendingCleanups hands the queued cleanups to the run that is starting.
+func takePendingCleanups() []func() {
+	fs := pendingCleanups
+	pendingCleanups = nil
+	return fs
 }
 
 // forceGC is the garbage-collection fault: at a seeded step the current task
